@@ -149,7 +149,7 @@ def scenario(ctx):
     calls = []      # dict(msg, expect..., replies)
     replies = {}    # reply_serial -> [Msg]
     nseen = [len(rig.sent)]
-    budget = [1 + ds.choose(12)]
+    budget = [1 + ds.choose(12 * (3 if ctx.tier == 'thorough' else 1))]
 
     def pick_call():
         p = ds.pick(paths)
@@ -287,9 +287,9 @@ def scenario(ctx):
         if inflight > 1:
             sim.probe('several-calls-in-flight')
 
-    sched.run(300, extra, invariant)
+    sched.run(300 * (3 if ctx.tier == 'thorough' else 1), extra, invariant)
     budget[0] = 0
-    ok = sched.drain(400, extra, invariant)
+    ok = sched.drain(400 * (3 if ctx.tier == 'thorough' else 1), extra, invariant)
     if not ok:
         raise Violation('C10/liveness', 'no quiescence', 'drain did not reach quiescence')
     alive = rig.conn.a.state == net.OPEN
